@@ -27,12 +27,12 @@ Definition project (acts ids cs : list Z) (o : out) : out :=
         (filter (fun m => match m with mi c _ _ _ => memz c cs end) (x_mirror o))
         (canon_built (filter (fun p => memz (fst p) cs) (x_built o)))
         true true (x_panicked o).
-Fixpoint outs_eq (base : Z) (steps : list step) (a b : list out) : Z :=
+Fixpoint outs_eq (key : event -> Z) (base : Z) (steps : list step) (a b : list out) : Z :=
   match a, b with
   | [], [] => 0
   | x :: r, y :: s =>
-      let d := out_diff (match steps with st :: _ => is_frame st | [] => false end) x y in
-      if Z.eqb d 0 then outs_eq base (tl steps) r s else base + d
+      let d := out_diff_k key (match steps with st :: _ => is_frame st | [] => false end) x y in
+      if Z.eqb d 0 then outs_eq key base (tl steps) r s else base + d
   | _, _ => base + 9
   end.
 
@@ -43,9 +43,9 @@ Definition ok (p : mcase * mtrace_t) : Z :=
       let acts := actions_of full cs in
       let ids := ids_of_ctxs full cs in
       (* determinism: the two runs of the full configuration are identical, field by field *)
-      let d := outs_eq 20 (s_steps full) t1 t3 in
+      let d := outs_eq (fun _ => 0) 20 (s_steps full) t1 t3 in       (* constant key: the stable sort is the identity, exact order *)
       if negb (Z.eqb d 0) then d
-      else outs_eq 0 (s_steps full) (map (project acts ids cs) t1) (map (project acts ids cs) t2)
+      else outs_eq ev_key 0 (s_steps full) (map (project acts ids cs) t1) (map (project acts ids cs) t2)
   | _ => 30
   end.
 Definition bad_agree := bad agree.
